@@ -25,8 +25,8 @@
 import inspect
 
 from frappy.datatypes import ArrayOf, BoolType, CommandType, DataType, \
-    DataTypeType, EnumType, FloatRange, NoneOr, OrType, StringType, StructOf, \
-    TextType, TupleOf, ValueType
+    DataTypeType, EnumType, FloatRange, LimitsType, NoneOr, OrType, StringType, \
+    StructOf, TextType, TupleOf, ValueType
 from frappy.errors import BadValueError, ProgrammingError, WrongTypeError
 from frappy.lib import generalConfig
 from frappy.properties import HasProperties, Property
@@ -575,7 +575,7 @@ class Limit(Parameter):
             return  # the programmer is responsible that a given datatype is correct
         postfix = self.name.rpartition('_')[-1]
         if postfix == 'limits':
-            self.datatype = TupleOf(datatype, datatype)
+            self.datatype = LimitsType(datatype)
             self.default = (datatype.min, datatype.max)
         else:  # min, max
             self.datatype = datatype
